@@ -148,12 +148,12 @@ theorem C10_anyKind_scanDroppedColumns (X : Proofs.Entry.Render) (π : MapOrder 
 /-- The old filter lets a scan hang: a directory with ONE entry — a FIFO named like a relation file or a WAL segment —
 passes `!e.IsDir()`, and the read of it never returns. -/
 theorem C10_oldScan_blocks :
-    ∃ es : List Entry, (∀ e ∈ es, e.consistent = true) ∧ scan oldSelect es = none :=
+    ∃ es : List Entry, (∀ e ∈ es, e.consistent = true) ∧ FSKind.scan oldSelect es = none :=
   ⟨[⟨[49, 54, 51, 56, 52], .fifo, .fifo⟩], by decide, by decide⟩
 
 /-- … and so does a symbolic link to a FIFO. -/
 theorem C10_oldScan_blocks_link :
-    ∃ es : List Entry, (∀ e ∈ es, e.consistent = true) ∧ scan oldSelect es = none :=
+    ∃ es : List Entry, (∀ e ∈ es, e.consistent = true) ∧ FSKind.scan oldSelect es = none :=
   ⟨[⟨[49, 54, 51, 56, 52], .symlink, .fifo⟩], by decide, by decide⟩
 
 /-- The new filter selects entries of type regular only. -/
@@ -176,12 +176,12 @@ example : (Entry.mk [49] .regular (.regular [0])).consistent = true ∧ newSelec
 
 /-- The repaired scans finish on every consistent directory, whatever it holds. -/
 theorem C10_newScan_returns (es : List Entry) (hc : ∀ e ∈ es, e.consistent = true) :
-    ∃ r, scan newSelect es = some r := by
+    ∃ r, FSKind.scan newSelect es = some r := by
   induction es with
   | nil => exact ⟨[], rfl⟩
   | cons e rest ih =>
     obtain ⟨r, hr⟩ := ih (fun x hx => hc x (List.mem_cons_of_mem _ hx))
-    unfold scan
+    unfold FSKind.scan
     by_cases hs : newSelect e = true
     · have hnb := C10_newSelect_read_returns e (hc e (List.mem_cons_self ..)) hs
       rw [if_pos hs]
@@ -196,13 +196,13 @@ example : ∀ e ∈ [Entry.mk [49] .fifo .fifo, Entry.mk [50] .symlink .fifo, En
 
 /-- What the repaired scans read is what `Entry.bytes?` says: the bytes of the entries of type regular, in order. -/
 theorem C10_newScan_eq (es : List Entry) (hc : ∀ e ∈ es, e.consistent = true) :
-    scan newSelect es = some (es.filterMap fun e => e.bytes?.map fun b => (e.name, b)) := by
+    FSKind.scan newSelect es = some (es.filterMap fun e => e.bytes?.map fun b => (e.name, b)) := by
   induction es with
   | nil => rfl
   | cons e rest ih =>
     have ih' := ih (fun x hx => hc x (List.mem_cons_of_mem _ hx))
     have hce := hc e (List.mem_cons_self ..)
-    unfold scan
+    unfold FSKind.scan
     by_cases hs : newSelect e = true
     · have ht : e.type = .regular := by simpa [newSelect] using hs
       unfold Entry.consistent at hce
@@ -215,7 +215,7 @@ theorem C10_newScan_eq (es : List Entry) (hc : ∀ e ∈ es, e.consistent = true
 /-- On a directory that holds only regular files and directories the two filters agree, entry by entry, and the scan
 result is unchanged. -/
 theorem C10_scan_unchanged (es : List Entry) (h : ∀ e ∈ es, e.type = .regular ∨ e.type = .dir) :
-    es.filter oldSelect = es.filter newSelect ∧ scan oldSelect es = scan newSelect es := by
+    es.filter oldSelect = es.filter newSelect ∧ FSKind.scan oldSelect es = FSKind.scan newSelect es := by
   induction es with
   | nil => exact ⟨rfl, rfl⟩
   | cons e rest ih =>
@@ -224,7 +224,7 @@ theorem C10_scan_unchanged (es : List Entry) (h : ∀ e ∈ es, e.type = .regula
       rcases h e (List.mem_cons_self ..) with ht | ht <;> simp [oldSelect, newSelect, ht]
     constructor
     · simp only [List.filter_cons, he, ih1]
-    · unfold scan
+    · unfold FSKind.scan
       rw [he, ih2]
 
 example : ∀ e ∈ [Entry.mk [49] .regular (.regular [1]), Entry.mk [50] .dir .dir], e.type = .regular ∨ e.type = .dir := by
@@ -233,7 +233,7 @@ example : ∀ e ∈ [Entry.mk [49] .regular (.regular [1]), Entry.mk [50] .dir .
 /-- The one entry kind whose treatment changes without a hang being at stake: a symbolic link named like a relation file
 or a segment is no longer followed (pg_checksums tests lstat + S_ISREG the same way; PostgreSQL never creates one). -/
 theorem C10_scan_link_not_followed (n b : Bytes) :
-    scan oldSelect [⟨n, .symlink, .regular b⟩] = some [(n, b)] ∧ scan newSelect [⟨n, .symlink, .regular b⟩] = some [] := by
-  constructor <;> simp [scan, oldSelect, newSelect, readEntry, osReadFile]
+    FSKind.scan oldSelect [⟨n, .symlink, .regular b⟩] = some [(n, b)] ∧ FSKind.scan newSelect [⟨n, .symlink, .regular b⟩] = some [] := by
+  constructor <;> simp [FSKind.scan, oldSelect, newSelect, readEntry, osReadFile]
 
 end PgVerif.Props.C10.EntryFS
